@@ -11,6 +11,7 @@ import (
 	"sort"
 	"strconv"
 	"strings"
+	"sync"
 	"unicode/utf8"
 
 	"go.mongodb.org/mongo-driver/bson"
@@ -25,6 +26,7 @@ type V = map[string]interface{}
 // Table collects every string used in a run so that the string table
 // (spec constant Str) can be emitted.
 type Table struct {
+	mu  sync.Mutex
 	set map[string]struct{}
 }
 
@@ -53,22 +55,30 @@ var SpecStrings = []string{"", "_id", "item", "_x", "$each", "$position", "$sort
 
 // Add interns a string together with its path segments.
 func (t *Table) Add(s string) {
+	t.mu.Lock()
+	defer t.mu.Unlock()
+	t.add(s)
+}
+
+func (t *Table) add(s string) {
 	if _, ok := t.set[s]; ok {
 		return
 	}
 	t.set[s] = struct{}{}
 	if strings.HasPrefix(s, "$[") && strings.HasSuffix(s, "]") {
-		t.Add(s[2 : len(s)-1])
+		t.add(s[2 : len(s)-1])
 	}
 	if strings.Contains(s, ".") {
 		for _, seg := range strings.Split(s, ".") {
-			t.Add(seg)
+			t.add(seg)
 		}
 	}
 }
 
 // JSON returns the string table as a JSON-able object.
 func (t *Table) JSON() map[string]interface{} {
+	t.mu.Lock()
+	defer t.mu.Unlock()
 	out := map[string]interface{}{}
 	keys := make([]string, 0, len(t.set))
 	for s := range t.set {
